@@ -254,6 +254,16 @@ def make_case(pid: str, seed: int, tier: str) -> ProdCase:
         dense = ('interval', (ref0 // NS_HOUR) * NS_HOUR - 3 * NS_DAY, step, None)
         case.specs[3] = rnd.choice([('offset', make_exact(shift), window, dense),
                                     ('jitter', make_exact(shift), make_exact(shift + NS_S), window, dense)])
+        # directed: a two-sided jitter that is not symmetric (|low| < high and |low| > high), queried from instants
+        # shortly before an occurrence of the underlying trigger: closer than |low|, between |low| and high, further away
+        step4 = rnd.choice([NS_HOUR, 6 * NS_HOUR])
+        start4 = (ref0 // NS_HOUR) * NS_HOUR - 2 * NS_DAY
+        a, b = rnd.choice([(10 * NS_S, 120 * NS_S), (NS_S, 10 * NS_MIN), (5 * NS_MIN, 20 * NS_MIN), (10 * NS_MIN, 2 * NS_MIN)])
+        case.specs[4] = ('jitter', make_exact(-a), make_exact(b), None, ('interval', start4, step4, None))
+        for kk in range(3):
+            occ = start4 + (48 + 5 * kk) * step4
+            for dd in (a // 2, a, a + NS_S, (a + b) // 2, b, b + NS_S, max(a, b) + 10 * NS_MIN):
+                case.meta['probes'].append((4, occ - dd))
     elif pid == 'C16':
         # unsatisfiable / contradictory filters at every level, plus satisfiable controls
         unsat = [('all', [('dow', [1]), ('dow', [2])]), ('all', [('dom', [31]), ('moy', [2])]),
